@@ -98,7 +98,7 @@ impl Stream for Valid
 	}
 	fn count(&self, tier: Tier) -> u64
 	{
-		tier.pick(1500, 60_000)
+		tier.pick(4000, 60_000)
 	}
 	fn choice_len(&self) -> usize
 	{
@@ -199,7 +199,7 @@ impl Stream for Invalid
 	}
 	fn count(&self, tier: Tier) -> u64
 	{
-		tier.pick(6000, 150_000)
+		tier.pick(30_000, 150_000)
 	}
 	fn choice_len(&self) -> usize
 	{
